@@ -1,33 +1,501 @@
-(* C02/Model.v — C02 is about the shared negotiation model (Neg/Model.v) run as
-   an initiator whose configuration contains the real STARTTLS feature
-   (KStartTLS) on a connection that is not secure yet.  This file adds the
-   pieces specific to C02: projections of a trace (what is written before the
-   TLS layer, which server names were used, ...), the model of one feature
-   value shared by several sessions, and the case checker used by the
-   harness-written case files.  Computable definitions only. *)
-From XV Require Import lib.Bytes gen.NegTables Neg.Model.
+(* C02/Model.v — executable model of stream negotiation as run by an INITIATING
+   session (NewSession with the default negotiator), for property C02
+   "a client asked to use STARTTLS never proceeds in clear text".
 
-(* ---- projections of a trace ---- *)
+   Self-contained on purpose (it started as a copy of the initiator half of
+   Neg/Model.v, which belongs to C01): it imports only the tables generated
+   from the source (gen/NegTables.v).
+
+   It mirrors, function by function, the code of the verified tree (pinned
+   commit + the fix: commits on negotiator.go, starttls.go, features.go):
+
+     session.go     negotiateSession      -> session_loop / run
+     negotiator.go  negotiator (closure)  -> the tee-wrapping branch of
+                                             session_loop + negotiator_body
+     features.go    negotiateFeatures     -> negotiate_features, after_read,
+                                             init_loop (selection loop), after_pick
+                    readStreamFeatures    -> read_children
+     starttls.go    StartTLS.Negotiate    -> starttls_negotiate
+     conn.go        teeConn               -> the [istee] flag (a teeConn forwards
+                                             every byte unchanged; what it copies
+                                             to TeeIn/TeeOut is not part of C02)
+
+   Abstraction boundary.  The peer's input is a list of *items*; every item is
+   delivered by exactly one Read of the connection and is consumed whole by one
+   read point of the code (or makes that read point fail).  There are two
+   scripts: what the peer sends in clear text and what it sends once a TLS
+   layer is up.  Clear-text items that are still undelivered when the layer is
+   switched model bytes pipelined behind <proceed/>: they sit in the buffer of
+   the old xml.Decoder.  What a feature other than STARTTLS returns from
+   Negotiate/Parse is an input (scripted outcomes); the order in which Go
+   iterates the feature map is an input (choice list) whose legality the model
+   checks.  XML tokenisation, the address checks on stream headers (C12) and
+   TLS itself are not modelled: a header is "good" or "bad" by construction,
+   the TLS handshake is an oracle ([c_hs_ok]) that is told a server name.
+
+   The captured variable of the StartTLS feature value (the *tls.Config given
+   to xmpp.StartTLS, nil = None) is explicit state [m_fv], threaded from one
+   session to the next ([run_sessions]).
+
+   Only computable definitions here; no proofs. *)
+From XV Require Import lib.Bytes gen.NegTables.
+
+(* ------------------------------------------------------------------ state bits *)
+
+Definition has (st m : N) : bool := N.eqb (N.land st m) m.        (* st&m == m *)
+Definition disj (st m : N) : bool := N.eqb (N.land st m) 0%N.      (* st&m == 0 *)
+
+(* ------------------------------------------------------------------ features *)
+
+Inductive fkind :=
+| KAbstract     (* Negotiate is a callback with a scripted outcome and no I/O *)
+| KStartTLS.    (* starttls.go's Negotiate, modelled concretely *)
+
+Record feature := mkF {
+  f_space : bytes; f_local : bytes;
+  f_nec : N; f_proh : N;        (* Necessary, Prohibited *)
+  f_neg : bool;                 (* Negotiate != nil *)
+  f_kind : fkind }.
+
+Definition name := (bytes * bytes)%type.
+Definition fname (f : feature) : name := (f_space f, f_local f).
+Definition name_eqb (a b : name) : bool := bytes_eqb (fst a) (fst b) && bytes_eqb (snd a) (snd b).
+
+(* the Necessary/Prohibited test of readStreamFeatures and of the selection loop *)
+Definition eligible (f : feature) (st : N) : bool := has st (f_nec f) && disj st (f_proh f).
+
+(* getFeature: first configured feature with that full name *)
+Fixpoint get_feature (n : name) (fs : list feature) : option feature :=
+  match fs with
+  | [] => None
+  | f :: r => if name_eqb (fname f) n then Some f else get_feature n r
+  end.
+
+(* containsStartTLS: first configured feature in that name space *)
+Fixpoint find_space (s : bytes) (fs : list feature) : option feature :=
+  match fs with
+  | [] => None
+  | f :: r => if bytes_eqb (f_space f) s then Some f else find_space s r
+  end.
+
+Fixpoint mem (s : bytes) (l : list bytes) : bool :=
+  match l with [] => false | x :: r => bytes_eqb x s || mem s r end.
+
+(* streamFeaturesList.cache: map name space -> (req, feature) as an association
+   list; insertion replaces an entry with the same key (Go map assignment) *)
+Definition centry := (bool * feature)%type.
+Definition cache := list centry.
+Definition ckey (e : centry) : bytes := f_space (snd e).
+
+Fixpoint cache_remove (s : bytes) (c : cache) : cache :=
+  match c with
+  | [] => []
+  | e :: r => if bytes_eqb (ckey e) s then cache_remove s r else e :: cache_remove s r
+  end.
+Definition cache_put (e : centry) (c : cache) : cache := cache_remove (ckey e) c ++ [e].
+Fixpoint cache_get (s : bytes) (c : cache) : option centry :=
+  match c with
+  | [] => None
+  | e :: r => if bytes_eqb (ckey e) s then Some e else cache_get s r
+  end.
+
+(* what a Negotiate call returned: mask, rw != nil, err != nil *)
+Record outcome := mkO { o_mask : N; o_restart : bool; o_err : bool }.
+Definition default_outcome := mkO 0%N false false.
+
+(* ------------------------------------------------------------------ peer items *)
+
+Inductive hclass := HGood | HBad.   (* a stream header that Expect + the address checks accept / reject *)
+
+(* a child of <stream:features/>: an element (name, what Parse says about it:
+   required, error) or character data *)
+Inductive fchild := FC (space local : bytes) (req perr : bool) | FCText.
+
+Inductive pbody :=
+| PHeader (h : hclass)
+| PFeatures (cs : list fchild)
+| PStreamErr
+| PElem (space local : bytes)     (* an empty element that is none of the above *)
+| PGarbage.                       (* bytes that are not well-formed XML *)
+
+(* i_sp: white space precedes the element *)
+Record pitem := mkItem { i_sp : bool; i_body : pbody }.
+
+(* ------------------------------------------------------------------ events *)
+
+(* where the code was reading when an item was delivered *)
+Inductive readpoint := RPHeader | RPFeatures | RPReply.
+
+Inductive witem :=
+| WHeader
+| WElem (space local : bytes).
+
+Inductive event :=
+| EIn (rp : readpoint) (st : N) (it : pitem)   (* item delivered; st = state bits at that moment *)
+| EEof (rp : readpoint)                         (* the input ended *)
+| EOut (w : witem)                              (* written to the peer *)
+| EParse (f : feature)                          (* Parse callback ran *)
+| ENeg (f : feature) (st : N) (o : outcome)    (* Negotiate ran with session state st and returned o *)
+| ESwitch (server_name : bytes)                 (* tls.Client put on the connection, configured with that name *)
+| EHandshake (ok : bool).                       (* the TLS handshake ran (at the first write on the new layer) *)
+
+(* ------------------------------------------------------------------ configuration, machine state *)
+
+Record config := mkCfg {
+  c_feats : list feature;
+  c_hs_ok : bool;               (* oracle: the TLS handshake succeeds *)
+  c_domain : bytes              (* domainpart of the session's local address *) }.
+
+(* negotiatorState: doRestart, !started *)
+Record nstate := mkNS { ns_restart : bool; ns_first : bool }.
+
+Record mstate := mkM {
+  m_bits : N;                   (* s.state *)
+  m_negd : list bytes;          (* s.negotiated (keys) *)
+  m_cache : cache;              (* the current streamFeaturesList *)
+  m_total : nat;
+  m_lreq : bool;
+  m_in : list pitem;            (* input not yet delivered, current layer *)
+  m_tlsin : list pitem;         (* input the peer will send once a TLS layer is up *)
+  m_tls : bool;                 (* a TLS layer is installed *)
+  m_hs : bool;                  (* its handshake has not run yet *)
+  m_outs : list outcome;        (* scripted outcomes of abstract Negotiate calls *)
+  m_choices : list bytes;       (* observed map-iteration choices (name spaces) *)
+  m_fv : option bytes;          (* the variable captured by the StartTLS feature value: ServerName of its config, None = nil *)
+  m_tr : list event             (* events so far, oldest first *) }.
+
+Definition emit (e : event) (m : mstate) : mstate :=
+  mkM (m_bits m) (m_negd m) (m_cache m) (m_total m) (m_lreq m) (m_in m) (m_tlsin m) (m_tls m) (m_hs m)
+      (m_outs m) (m_choices m) (m_fv m) (m_tr m ++ [e]).
+Definition set_bits (b : N) (m : mstate) : mstate :=
+  mkM b (m_negd m) (m_cache m) (m_total m) (m_lreq m) (m_in m) (m_tlsin m) (m_tls m) (m_hs m)
+      (m_outs m) (m_choices m) (m_fv m) (m_tr m).
+Definition set_negd (l : list bytes) (m : mstate) : mstate :=
+  mkM (m_bits m) l (m_cache m) (m_total m) (m_lreq m) (m_in m) (m_tlsin m) (m_tls m) (m_hs m)
+      (m_outs m) (m_choices m) (m_fv m) (m_tr m).
+Definition set_list (c : cache) (t : nat) (r : bool) (m : mstate) : mstate :=
+  mkM (m_bits m) (m_negd m) c t r (m_in m) (m_tlsin m) (m_tls m) (m_hs m)
+      (m_outs m) (m_choices m) (m_fv m) (m_tr m).
+Definition set_in (i : list pitem) (m : mstate) : mstate :=
+  mkM (m_bits m) (m_negd m) (m_cache m) (m_total m) (m_lreq m) i (m_tlsin m) (m_tls m) (m_hs m)
+      (m_outs m) (m_choices m) (m_fv m) (m_tr m).
+Definition set_outs (o : list outcome) (m : mstate) : mstate :=
+  mkM (m_bits m) (m_negd m) (m_cache m) (m_total m) (m_lreq m) (m_in m) (m_tlsin m) (m_tls m) (m_hs m)
+      o (m_choices m) (m_fv m) (m_tr m).
+Definition set_choices (c : list bytes) (m : mstate) : mstate :=
+  mkM (m_bits m) (m_negd m) (m_cache m) (m_total m) (m_lreq m) (m_in m) (m_tlsin m) (m_tls m) (m_hs m)
+      (m_outs m) c (m_fv m) (m_tr m).
+Definition set_hs (h : bool) (m : mstate) : mstate :=
+  mkM (m_bits m) (m_negd m) (m_cache m) (m_total m) (m_lreq m) (m_in m) (m_tlsin m) (m_tls m) h
+      (m_outs m) (m_choices m) (m_fv m) (m_tr m).
+(* tls.Client around the connection: whatever clear text the peer had already
+   sent is gone with the old decoder (session.go, rw != nil branch: the decoder
+   is recreated on the new layer); from now on input comes from the TLS-layer
+   script *)
+Definition switch_layer (m : mstate) : mstate :=
+  mkM (m_bits m) (m_negd m) (m_cache m) (m_total m) (m_lreq m) (m_tlsin m) [] true true
+      (m_outs m) (m_choices m) (m_fv m) (m_tr m).
+
+Inductive eclass :=
+| EFeature    (* the error an abstract feature's callback returned *)
+| EOther.
+
+(* result of a step: a value, an error, or "the observed choice was not one
+   the code could have made / a structural fuel ran out" *)
+Inductive res (A : Type) := Good (a : A) | Bad (e : eclass) | Stuck.
+Arguments Good {A} a. Arguments Bad {A} e. Arguments Stuck {A}.
+
+(* ------------------------------------------------------------------ reading, headers *)
+
+Definition read (rp : readpoint) (m : mstate) : mstate * option pitem :=
+  match m_in m with
+  | [] => (emit (EEof rp) m, None)
+  | it :: rest => (emit (EIn rp (m_bits m) it) (set_in rest m), Some it)
+  end.
+
+(* internal/stream.Expect followed by negotiator's address checks: leading
+   white space is skipped, a good header is accepted, anything else is an error *)
+Definition is_good_header (r : option pitem) : bool :=
+  match r with
+  | Some (mkItem _ (PHeader HGood)) => true
+  | _ => false
+  end.
+
+Definition expect_header (m : mstate) : mstate * res unit :=
+  let '(m1, r) := read RPHeader m in
+  (m1, if is_good_header r then Good tt else Bad EOther).
+
+(* internal/stream.Send.  The first write on a fresh TLS layer runs the handshake. *)
+Definition send_header (c : config) (m : mstate) : mstate * res unit :=
+  if m_tls m && m_hs m then
+    if c_hs_ok c then (emit (EOut WHeader) (emit (EHandshake true) (set_hs false m)), Good tt)
+    else (emit (EHandshake false) (set_hs false m), Bad EOther)
+  else (emit (EOut WHeader) m, Good tt).
+
+(* ------------------------------------------------------------------ readStreamFeatures *)
+
+(* the effect of one supported, successfully parsed child on the cache *)
+Definition cache_step (st : N) (f : feature) (req : bool) (ca : cache) : cache :=
+  if eligible f st then cache_put (req, f) ca else ca.
+
+Fixpoint read_children (fs : list feature) (st : N) (cs : list fchild) (m : mstate)
+         (ca : cache) (tot : nat) (lr : bool) : mstate * res (cache * nat * bool) :=
+  match cs with
+  | [] => (m, Good (ca, tot, lr))
+  | FCText :: _ => (m, Bad EOther)                     (* stream.RestrictedXML *)
+  | FC sp lo req perr :: rest =>
+      match get_feature (sp, lo) fs with
+      | Some f =>
+          let m1 := emit (EParse f) m in
+          if perr then (m1, Bad EFeature)
+          else read_children fs st rest m1 (cache_step st f req ca) (S tot) (lr || req)  (* sf.req before the mask test *)
+      | None => read_children fs st rest m ca (S tot) lr
+      end
+  end.
+
+(* ------------------------------------------------------------------ Negotiate *)
+
+(* starttls.go Negotiate: the config handed to tls.Client is the captured one,
+   or, when that is nil, a default made for THIS session from the domainpart of
+   its local address.  The captured variable is not assigned. *)
+Definition tls_name (c : config) (m : mstate) : bytes :=
+  match m_fv m with Some n => n | None => c_domain c end.
+
+Definition str_proceed : bytes := str "proceed".
+Definition str_starttls : bytes := str "starttls".
+
+(* Initiating side: write <starttls/>, read one token; <proceed/> in the TLS
+   name space -> tls.Client; anything else is an error. *)
+Definition is_proceed (r : option pitem) : bool :=
+  match r with
+  | Some (mkItem false (PElem sp lo)) => bytes_eqb sp ns_StartTLS && bytes_eqb lo str_proceed
+  | _ => false
+  end.
+
+Definition starttls_negotiate (c : config) (m : mstate) : mstate * outcome :=
+  let '(m2, r) := read RPReply (emit (EOut (WElem ns_StartTLS str_starttls)) m) in
+  if is_proceed r then (emit (ESwitch (tls_name c m2)) (switch_layer m2), mkO st_Secure true false)
+  else (m2, mkO 0%N false true).
+
+(* one Negotiate call; the ENeg event records the state bits at the call *)
+Definition negotiate_one (c : config) (m : mstate) (f : feature) : mstate * outcome :=
+  let st := m_bits m in
+  match f_kind f with
+  | KAbstract =>
+      let o := match m_outs m with [] => default_outcome | o :: _ => o end in
+      (emit (ENeg f st o) (set_outs (tl (m_outs m)) m), o)
+  | KStartTLS =>
+      let '(m1, o) := starttls_negotiate c m in
+      (emit (ENeg f st o) m1, o)
+  end.
+
+Definition feature_err (f : feature) : eclass :=
+  match f_kind f with KAbstract => EFeature | KStartTLS => EOther end.
+
+(* the part of the selection loop after a feature was picked:
+     mask, rw, err = Negotiate(...); if err == nil { s.state |= mask }
+     s.negotiated[space] = {}; if err != nil || rw != nil || req { break }
+   and, after the loop, `if !list.req && rw == nil { mask |= Ready }; return mask, rw, err`.
+   Returns Good None when the loop goes on. *)
+Definition after_pick (c : config) (m : mstate) (req : bool) (f : feature)
+  : mstate * res (option (N * bool)) :=
+  let '(m1, o) := negotiate_one c m f in
+  let m2 := if o_err o then m1 else set_bits (N.lor (m_bits m1) (o_mask o)) m1 in
+  let m3 := set_negd (f_space f :: m_negd m2) m2 in
+  if o_err o then (m3, Bad (feature_err f))
+  else if o_restart o || req then
+    (m3, Good (Some (N.lor (o_mask o) (if m_lreq m3 || o_restart o then 0%N else st_Ready), o_restart o)))
+  else (m3, Good None).
+
+(* ------------------------------------------------------------------ selection *)
+
+(* cached features that are not yet negotiated on this stream, can be
+   negotiated at all, and whose prerequisites hold now *)
+Definition cand (negd : list bytes) (st : N) (e : centry) : bool :=
+  negb (mem (ckey e) negd) && f_neg (snd e) && eligible (snd e) st.
+Definition candidates (m : mstate) : cache := filter (cand (m_negd m) (m_bits m)) (m_cache m).
+
+(* `for _, v := range list.cache`: Go picks an order; whichever it is, the
+   result is a voluntary candidate if there is one, else a required one.  The
+   observed pick is taken from the choice list and checked. *)
+Definition select (m : mstate) : mstate * res (option centry) :=
+  match candidates m with
+  | [] => (m, Good None)
+  | cands =>
+      match m_choices m with
+      | [] => (m, Stuck)
+      | ch :: rest =>
+          let m1 := set_choices rest m in
+          match cache_get ch cands with
+          | None => (m1, Stuck)
+          | Some e => if fst e && existsb (fun x => negb (fst x)) cands then (m1, Stuck)
+                      else (m1, Good (Some e))
+          end
+      end
+  end.
+
+Fixpoint init_loop (fuel : nat) (c : config) (m : mstate) (forced : option feature)
+  : mstate * res (N * bool) :=
+  match fuel with
+  | O => (m, Stuck)
+  | S k =>
+      match forced with
+      | Some f =>       (* data = sfData{req: true, feature: startTLS}; the observed pick must be this one *)
+          match m_choices m with
+          | [] => (m, Stuck)
+          | ch :: rest =>
+          if negb (bytes_eqb ch (f_space f)) then (set_choices rest m, Stuck) else
+          match after_pick c (set_choices rest m) true f with
+          | (m1, Good (Some r)) => (m1, Good r)
+          | (m1, Good None) => (m1, Stuck)     (* unreachable: req = true always ends the loop *)
+          | (m1, Bad e) => (m1, Bad e)
+          | (m1, Stuck) => (m1, Stuck)
+          end
+          end
+      | None =>
+          match select m with
+          | (m1, Good None) => (m1, Good (st_Ready, false))   (* nothing left to negotiate *)
+          | (m1, Good (Some (req, f))) =>
+              match after_pick c m1 req f with
+              | (m2, Good (Some r)) => (m2, Good r)
+              | (m2, Good None) => init_loop k c m2 None
+              | (m2, Bad e) => (m2, Bad e)
+              | (m2, Stuck) => (m2, Stuck)
+              end
+          | (m1, Bad e) => (m1, Bad e)
+          | (m1, Stuck) => (m1, Stuck)
+          end
+      end
+  end.
+
+(* ------------------------------------------------------------------ negotiateFeatures *)
+
+(* the item is a well-formed features list *)
+Definition features_of (r : option pitem) : option (list fchild) :=
+  match r with
+  | Some (mkItem false (PFeatures cs)) => Some cs
+  | _ => None
+  end.
+
+Definition normal_path (c : config) (m : mstate) : mstate * res (N * bool) :=
+  match m_total m, m_cache m with
+  | O, _ => (m, Good (st_Ready, false))
+  | _, [] => (m, Bad EOther)      (* "features advertised out of order" *)
+  | _, ca => init_loop (S (length ca)) c m None
+  end.
+
+(* after the list was read: the forced-STARTTLS rule, the `total == 0` and
+   `len(cache) == 0` exits, then the selection loop *)
+Definition after_read (c : config) (m : mstate) (first : bool) : mstate * res (N * bool) :=
+  let advertised := match cache_get ns_StartTLS (m_cache m) with Some _ => true | None => false end in
+  let force := first && negb advertised && negb (has (m_bits m) st_Secure) in
+  match (if force then find_space ns_StartTLS (c_feats c) else None) with
+  | Some f =>
+      if f_neg f then init_loop 1 c m (Some f)          (* startTLS.Negotiate != nil *)
+      else normal_path c m
+  | None => normal_path c m
+  end.
+
+Definition negotiate_features (c : config) (m : mstate) (first : bool) : mstate * res (N * bool) :=
+  let '(m1, r) := read RPFeatures m in
+  match features_of r with
+  | Some cs =>
+      match read_children (c_feats c) (m_bits m1) cs m1 [] 0 false with
+      | (m2, Good (ca, tot, lr)) => after_read c (set_list ca tot lr m2) first
+      | (m2, Bad e) => (m2, Bad e)
+      | (m2, Stuck) => (m2, Stuck)
+      end
+  | None => (m1, Bad EOther)
+  end.
+
+(* ------------------------------------------------------------------ negotiator, negotiateSession *)
+
+(* the negotiator closure after the tee branch: header exchange when a restart
+   is due, then negotiateFeatures; returns mask, rw != nil and the new state *)
+Definition negotiator_body (c : config) (m : mstate) (ns : nstate) : mstate * res (N * bool * nstate) :=
+  let '(m1, r1) :=
+    if ns_restart ns then
+      match send_header c m with
+      | (ma, Good _) => expect_header ma
+      | other => other
+      end
+    else (m, Good tt) in
+  match r1 with
+  | Good _ =>
+      match negotiate_features c m1 (ns_first ns) with
+      | (m2, Good (mask, restart)) => (m2, Good (mask, restart, mkNS restart false))
+      | (m2, Bad e) => (m2, Bad e)
+      | (m2, Stuck) => (m2, Stuck)
+      end
+  | Bad e => (m1, Bad e)
+  | Stuck => (m1, Stuck)
+  end.
+
+Inductive rclass := ROk | RErr (e : eclass) | RFuel | RStuck.
+Record result := mkR { r_class : rclass; r_bits : N; r_state : mstate }.
+
+(* `data.(negotiatorState)`: no state passed in = first call *)
+Definition ns_of (data : option nstate) : nstate :=
+  match data with Some ns => ns | None => mkNS true true end.
+
+(* `for s.state&Ready == 0 { mask, rw, data, err = negotiate(...) ... }`.
+   With TeeIn/TeeOut set and a connection that is not a teeConn the negotiator
+   returns a wrapped connection, its state and no bits: one extra iteration in
+   which the caches are cleared and the decoder renewed.  [tee] is
+   StreamConfig.TeeIn != nil || TeeOut != nil. *)
+Fixpoint session_loop (fuel : nat) (tee : bool) (c : config) (m : mstate) (data : option nstate) (istee : bool) : result :=
+  match fuel with
+  | O => mkR RFuel (m_bits m) m
+  | S k =>
+      if has (m_bits m) st_Ready then mkR ROk (m_bits m) m
+      else if tee && negb istee then
+        session_loop k tee c (set_negd [] m) (Some (ns_of data)) true       (* s.Conn() is a teeConn from now on *)
+      else
+        match negotiator_body c m (ns_of data) with
+        | (m1, Good (mask, restart, ns1)) =>
+            (* a feature that restarts the stream returns a connection that is not a teeConn *)
+            let m2 := if restart then set_negd [] m1 else m1 in
+            session_loop k tee c (set_bits (N.lor (m_bits m2) mask) m2) (Some ns1) (if restart then false else istee)
+        | (m1, Bad e) => mkR (RErr e) (m_bits m1) m1
+        | (m1, Stuck) => mkR RStuck (m_bits m1) m1
+        end
+  end.
+
+Definition init_state (fv : option bytes) (bits : N) (clear tls : list pitem) (outs : list outcome) (choices : list bytes) : mstate :=
+  mkM bits [] [] 0 false clear tls false false outs choices fv [].
+
+Definition fuel_for (clear tls : list pitem) : nat := 2 * (length clear + length tls) + 4.
+
+Definition run (tee : bool) (c : config) (fv : option bytes) (bits : N) (clear tls : list pitem)
+           (outs : list outcome) (choices : list bytes) : result :=
+  session_loop (fuel_for clear tls) tee c (init_state fv bits clear tls outs choices) None false.
+
+Definition trace (r : result) : list event := m_tr (r_state r).
+
+(* ------------------------------------------------------------------ projections of a trace *)
+
+Definition is_switch (e : event) : bool := match e with ESwitch _ => true | _ => false end.
 
 Fixpoint before_switch (tr : list event) : list event :=
   match tr with
   | [] => []
-  | ESwitch _ :: _ => []
-  | e :: r => e :: before_switch r
+  | e :: r => if is_switch e then [] else e :: before_switch r
   end.
 
 Fixpoint after_switch (tr : list event) : list event :=
   match tr with
   | [] => []
-  | ESwitch _ :: r => r
-  | _ :: r => after_switch r
+  | e :: r => if is_switch e then r else after_switch r
   end.
+
+Definition switched (tr : list event) : bool := existsb is_switch tr.
 
 Definition outs_of (tr : list event) : list witem :=
   flat_map (fun e => match e with EOut w => [w] | _ => [] end) tr.
 
-Definition switched (tr : list event) : bool :=
-  existsb (fun e => match e with ESwitch _ => true | _ => false end) tr.
+(* the items delivered to the session *)
+Definition ins_of (tr : list event) : list pitem :=
+  flat_map (fun e => match e with EIn _ _ it => [it] | _ => [] end) tr.
 
 Definition server_names (tr : list event) : list bytes :=
   flat_map (fun e => match e with ESwitch n => [n] | _ => [] end) tr.
@@ -35,29 +503,36 @@ Definition server_names (tr : list event) : list bytes :=
 Definition handshakes (tr : list event) : list bool :=
   flat_map (fun e => match e with EHandshake b => [b] | _ => [] end) tr.
 
-Definition is_callback (e : revent) : bool :=
-  match e with RParse _ | RNeg _ _ _ => true | _ => false end.
+(* the state bits the code had whenever it looked at input or ran a callback *)
+Definition bits_seen (tr : list event) : list N :=
+  flat_map (fun e => match e with EIn _ st _ => [st] | ENeg _ st _ => [st] | _ => [] end) tr.
+
+Definition starttls_request : witem := WElem ns_StartTLS str_starttls.
 
 (* the only things a client may write in clear text *)
 Definition clear_allowed (w : witem) : bool :=
   match w with
   | WHeader => true
   | WElem sp lo => bytes_eqb sp ns_StartTLS && bytes_eqb lo str_starttls
-  | WFeatures _ _ _ => false
   end.
 
-(* ---- the configurations C02 speaks about ---- *)
+Fixpoint prefix_of {A} (eq : A -> A -> bool) (p l : list A) : bool :=
+  match p, l with
+  | [], _ => true
+  | x :: p', y :: l' => eq x y && prefix_of eq p' l'
+  | _ :: _, [] => false
+  end.
+
+(* ------------------------------------------------------------------ the configurations C02 speaks about *)
 
 (* the STARTTLS feature as starttls.go declares it *)
 Definition starttls_feature : feature :=
-  mkF ft_starttls_space ft_starttls_local ft_starttls_nec ft_starttls_proh ft_starttls_negotiable KStartTLS true false.
+  mkF ft_starttls_space ft_starttls_local ft_starttls_nec ft_starttls_proh ft_starttls_negotiable KStartTLS.
 
-(* a configuration "with STARTTLS and otherwise only features that require a
-   secured stream": exactly one feature lives in the STARTTLS name space, it is
-   the real one, and every other feature lists Secure or Authn as necessary
-   (the built-in SASL needs Secure, resource binding needs Authn, which only
-   SASL grants) and cannot grant itself anything in clear text because it never
-   runs there. *)
+(* "configured with STARTTLS and otherwise only features that require a
+   secured stream": every feature in the STARTTLS name space is the real one,
+   and every other feature lists Secure or Authn as necessary (the built-in
+   SASL needs Secure, resource binding needs Authn, which only SASL grants). *)
 Definition gate : N := N.lor st_Secure st_Authn.
 
 Definition gated (f : feature) : bool :=
@@ -75,35 +550,75 @@ Definition c02_config (c : config) : bool :=
 Definition c02_bits (b : N) : bool :=
   N.eqb (N.land b (N.lor gate (N.lor st_Ready st_Received))) 0%N.
 
-(* ---- one feature value used for several sessions ---- *)
+(* ------------------------------------------------------------------ one feature value used for several sessions *)
 
-(* what differs from session to session when one StartTLS(nil) value is shared *)
+(* what differs from session to session when one StartTLS value is shared *)
 Record sess := mkSess {
-  s_domain : bytes; s_bits : N; s_in : list pitem; s_tls : list pitem;
-  s_outs : list outcome; s_choices : list bytes; s_hs_ok : bool; s_tee : bool }.
+  s_tee : bool; s_cfg : config; s_bits : N; s_in : list pitem; s_tls : list pitem;
+  s_outs : list outcome; s_choices : list bytes }.
 
-Definition run_sess (feats : list feature) (tlsname : option bytes) (s : sess) : result :=
-  run (mkCfg feats (s_tee s) false (s_hs_ok s) (s_domain s) tlsname)
-      (s_bits s) (s_in s) (s_tls s) (s_outs s) (s_choices s).
+Definition run_sess (fv : option bytes) (s : sess) : result :=
+  run (s_tee s) (s_cfg s) fv (s_bits s) (s_in s) (s_tls s) (s_outs s) (s_choices s).
 
-(* the closure state of the feature value (the captured cfg variable) is its
-   construction argument and is never written: every session sees [tlsname] *)
-Definition run_sessions (feats : list feature) (tlsname : option bytes) (ss : list sess) : list result :=
-  map (run_sess feats tlsname) ss.
+(* the captured variable as the previous session left it is what the next one finds *)
+Fixpoint run_sessions (fv : option bytes) (ss : list sess) : list result :=
+  match ss with
+  | [] => []
+  | s :: rest =>
+      let r := run_sess fv s in
+      r :: run_sessions (m_fv (r_state r)) rest
+  end.
 
-(* ---- correspondence record ---- *)
+(* ------------------------------------------------------------------ correspondence record *)
 
+Definition outcome_eqb (a b : outcome) : bool :=
+  N.eqb (o_mask a) (o_mask b) && Bool.eqb (o_restart a) (o_restart b) && Bool.eqb (o_err a) (o_err b).
+
+Fixpoint list_eqb {A} (eq : A -> A -> bool) (a b : list A) : bool :=
+  match a, b with
+  | [], [] => true
+  | x :: a', y :: b' => eq x y && list_eqb eq a' b'
+  | _, _ => false
+  end.
+
+Definition witem_eqb (a b : witem) : bool :=
+  match a, b with
+  | WHeader, WHeader => true
+  | WElem s l, WElem s' l' => bytes_eqb s s' && bytes_eqb l l'
+  | _, _ => false
+  end.
+
+(* what the instrumented features log *)
+Inductive cb := CParse (n : name) | CNeg (n : name) (st : N) (o : outcome).
+
+Definition cb_eqb (a b : cb) : bool :=
+  match a, b with
+  | CParse n, CParse n' => name_eqb n n'
+  | CNeg n st o, CNeg n' st' o' => name_eqb n n' && N.eqb st st' && outcome_eqb o o'
+  | _, _ => false
+  end.
+
+Definition callbacks (tr : list event) : list cb :=
+  flat_map (fun e => match e with
+                     | EParse f => [CParse (fname f)]
+                     | ENeg f st o => [CNeg (fname f) st o]
+                     | _ => []
+                     end) tr.
+
+(* one run of the real NewSession: inputs q_*, observations y_* *)
 Record c2case := mkC2 {
-  q_cfg : config; q_bits : N; q_in : list pitem; q_tls : list pitem;
+  q_tee : bool; q_cfg : config; q_fv : option bytes; q_bits : N;
+  q_in : list pitem; q_tls : list pitem;
   q_outs : list outcome; q_choices : list bytes;
   y_ok : bool; y_bits : N;
-  y_wire : list rwitem;        (* what the peer received before any TLS record *)
-  y_cb : list revent;          (* Parse / Negotiate callbacks in order *)
+  y_wire : list witem;         (* what the peer received before any TLS record *)
+  y_cb : list cb;              (* Parse / Negotiate callbacks in order *)
   y_sni : list bytes;          (* server names of the ClientHellos the peer saw *)
-  y_hs : list bool }.          (* outcome of each handshake *)
+  y_hs : list bool;            (* outcome of each handshake *)
+  y_tlsread : nat }.           (* TLS-layer script items the peer got to send *)
 
 Definition c2_run (k : c2case) : result :=
-  run (q_cfg k) (q_bits k) (q_in k) (q_tls k) (q_outs k) (q_choices k).
+  run (q_tee k) (q_cfg k) (q_fv k) (q_bits k) (q_in k) (q_tls k) (q_outs k) (q_choices k).
 
 Definition class_is_ok (c : rclass) : option bool :=
   match c with ROk => Some true | RErr _ => Some false | _ => None end.
@@ -116,7 +631,14 @@ Definition c2_ok (k : c2case) : bool :=
   | None => false
   end &&
   N.eqb (r_bits r) (y_bits k) &&
-  list_eqb rwitem_eqb (map raw_w (outs_of (before_switch tr))) (y_wire k) &&
-  list_eqb revent_eqb (filter is_callback (map raw tr)) (y_cb k) &&
+  list_eqb witem_eqb (outs_of (before_switch tr)) (y_wire k) &&
+  list_eqb cb_eqb (callbacks tr) (y_cb k) &&
   list_eqb bytes_eqb (server_names tr) (y_sni k) &&
-  list_eqb Bool.eqb (handshakes tr) (y_hs k).
+  list_eqb Bool.eqb (handshakes tr) (y_hs k) &&
+  Nat.eqb (length (ins_of (after_switch tr))) (y_tlsread k).
+
+Fixpoint failing {A} (ok : A -> bool) (i : nat) (l : list A) : list nat :=
+  match l with
+  | [] => []
+  | x :: r => if ok x then failing ok (S i) r else i :: failing ok (S i) r
+  end.
